@@ -1177,6 +1177,9 @@ def _kthlist_parse(inputfile):
                 "Vertex ID out of range [1,{}] at line {}.".format(size, i))
         yield left, right, i
 
+    if size < 0:
+        raise ValueError("The number of vertices is missing.")
+
 
 def _read_bipartite_kthlist(inputfile):
     """Read a bipartite graph from file, in the KTH reverse adjacency lists format.
